@@ -80,6 +80,82 @@ theorem update_preserves (r : Repo δ) (u : Update) (noDeleg : δ) :
   · simp [h4]
   · simp [h5]
 
+/-! ### Edits of a role's targets are plain assignments
+
+The editor keeps the targets a role already had and those added through the editor in two maps and
+merges them when it builds the document.  Whatever the sequence of `add_target` / `remove_target` /
+`clear_targets` calls, what gets listed is what the sequence means as assignments to one map: a name
+holds the last target added under it, unless it was removed (or everything was cleared) afterwards. -/
+
+/-- the meaning of an edit on a map from names to targets -/
+def specOp (m : Nat → Option Target) : TOp → (Nat → Option Target)
+  | .add n t => fun k => if k = n then some t else m k
+  | .remove n => fun k => if k = n then none else m k
+  | .clear => fun _ => none
+
+theorem lookup_erase (m : TMap) (n k : Nat) : (m.erase n).lookup k = if k = n then none else m.lookup k := by
+  induction m with
+  | nil => simp [TMap.erase]
+  | cons p rest ih =>
+    obtain ⟨a, t⟩ := p
+    simp only [TMap.erase, List.filter_cons] at ih ⊢
+    by_cases han : a = n
+    · subst han
+      simp only [bne_self_eq_false, Bool.false_eq_true, ↓reduceIte, ih]
+      by_cases hk : k = a
+      · simp [hk]
+      · have hka : (k == a) = false := by simpa using hk
+        simp [hk, List.lookup_cons, hka]
+    · have : (a != n) = true := by simpa using han
+      simp only [this, ↓reduceIte, List.lookup_cons, ih]
+      by_cases hk : k = n
+      · subst hk
+        have : (k == a) = false := by simpa using fun e => han e.symm
+        simp [this]
+      · simp [hk]
+
+theorem listed_applyOp (e : Editor δ) (op : TOp) (k : Nat) :
+    (listed (applyOp e op)).get k = specOp (fun k => (listed e).get k) op k := by
+  cases op with
+  | add n t =>
+    simp only [applyOp, addTarget, listed, TMap.get, TMap.extend, Option.getD_some, List.cons_append, List.lookup_cons, specOp]
+    by_cases hk : k = n
+    · simp [hk]
+    · have : (k == n) = false := by simpa using hk
+      simp [this, hk]
+  | remove n =>
+    simp only [applyOp, removeTarget, listed, TMap.get, TMap.extend, specOp, lookup_append]
+    have h1 : ((e.new.map (·.erase n)).getD []).lookup k = if k = n then none else (e.new.getD []).lookup k := by
+      cases e.new with
+      | none => simp
+      | some m => simp [lookup_erase]
+    have h2 : ((e.existing.map (·.erase n)).getD []).lookup k = if k = n then none else (e.existing.getD []).lookup k := by
+      cases e.existing with
+      | none => simp
+      | some m => simp [lookup_erase]
+    rw [h1, h2]
+    by_cases hk : k = n <;> simp [hk]
+  | clear => simp [applyOp, clearTargets, listed, TMap.get, TMap.extend, specOp]
+
+/-- **C17/C10: what a role lists after any sequence of edits is what the edits mean as assignments** -/
+theorem target_edits_are_assignments (e : Editor δ) (ops : List TOp) (k : Nat) :
+    (listed (applyOps e ops)).get k = (ops.foldl specOp (fun k => (listed e).get k)) k := by
+  induction ops generalizing e with
+  | nil => rfl
+  | cons op rest ih =>
+    simp only [applyOps, List.foldl_cons] at ih ⊢
+    rw [ih (applyOp e op)]
+    have hf : (fun k => (listed (applyOp e op)).get k) = specOp (fun k => (listed e).get k) op := by
+      funext k'
+      exact listed_applyOp e op k'
+    rw [hf]
+
+/-- replace, then remove: the name is gone (the sequence a seeded change got wrong) -/
+example (t t' : Target) :
+    (listed (applyOps ({ existing := some [(7, t)] } : Editor Nat) [.add 7 t', .remove 7])).get 7 = none := by
+  rw [target_edits_are_assignments]
+  simp [specOp]
+
 /-- the code before the repair loses the snapshot's unknown members on every update -/
 theorem old_build_snapshot_drops_extra (r : Repo δ) (u : Update) (noDeleg : δ) :
     ∃ r', update false r u noDeleg = .ok r' ∧ r'.snapshot.extra = 0 := by
